@@ -160,6 +160,9 @@ class C15:
                                      "uri": ".", "os": None}],
                           "foreign": [{"dir": "foreign/x", "id": "other/x"}], "cwd": cwd, "release": False, "pkgdir": "default",
                           "seed_ids": [], "seed_kind": 0})
+        cases.append({"libs": [{"dir": "buildpacks/one", "id": "verif/one", "pkg": "pone", "bins": ["pone"], "extra": "", "aux": []}],
+                      "comps": [{"dir": "", "id": "verif/rootmeta", "deps": [["lib", "verif/one"], ["uri", "docker://reg/img:1"]], "uri": ".", "os": None}],
+                      "foreign": [], "cwd": "", "release": False, "pkgdir": "default", "seed_ids": [], "seed_kind": 0})
         return cases
 
     # ------------------------------------------------------------------ running
